@@ -292,7 +292,6 @@ class Humanoid(AbstractMujocoEnv[Float[Array, "..."], Float[Array, "..."]]):
 
     def contact_cost(self, data: mjx.Data) -> Float[Array, ""]:
         contact_forces = data.cfrc_ext
-        raw_cost = jnp.sum(jnp.square(contact_forces))
+        raw_cost = self.contact_cost_weight * jnp.sum(jnp.square(contact_forces))
         min_cost, max_cost = self.contact_cost_range
-        clipped = jnp.clip(raw_cost, min_cost, max_cost)
-        return self.contact_cost_weight * clipped
+        return jnp.clip(raw_cost, min_cost, max_cost)
